@@ -824,6 +824,54 @@ func (w *World) checkThreshold(hs []*Node, ref *Node) {
 		}
 	}
 	w.probe("threshold_signature_checked")
+	// the same through the STATEFUL objects built from the DKG output: every honest participant
+	// creates its participant object from (group key, public shares, own private share), signs
+	// its share, and one of them collects t+1 of them with VerifyAndAdd
+	if w.c.Bool(1, 3, "thr.stateful") {
+		var parts []crypto.ThresholdSignatureParticipant
+		for _, n := range hs {
+			var p crypto.ThresholdSignatureParticipant
+			var err error
+			if _, pan := w.call(n, "NewBLSThresholdSignatureParticipant(DKG output)", func() error {
+				p, err = crypto.NewBLSThresholdSignatureParticipant(n.gpk, n.pks, w.t, n.idx, n.sk, msg, tag)
+				return err
+			}); pan {
+				return
+			}
+			if err != nil {
+				w.viol("C07", "keys.threshold", "participant.ctor:"+protoName[w.proto], "the DKG output of honest node %d is refused by NewBLSThresholdSignatureParticipant: %v", n.idx, err)
+				return
+			}
+			parts = append(parts, p)
+		}
+		col := parts[rnd.Intn(len(parts))]
+		added := 0
+		for k, p := range parts {
+			var sh crypto.Signature
+			var err error
+			if _, pan := w.call(hs[k], "SignShare", func() error { sh, err = p.SignShare(); return err }); pan {
+				return
+			}
+			if err != nil || !bytes.Equal(sh, shares[k]) {
+				w.viol("C07", "keys.threshold", "participant.signshare:"+protoName[w.proto], "SignShare of honest node %d differs from Sign with its private share (err=%v)", hs[k].idx, err)
+				return
+			}
+			if added <= w.t {
+				ok, _, err := col.VerifyAndAdd(hs[k].idx, sh)
+				if err != nil || !ok {
+					w.viol("C07", "keys.threshold", "participant.verifyandadd:"+protoName[w.proto], "the share of honest node %d is rejected by the stateful object built from the DKG output (ok=%v err=%v)", hs[k].idx, ok, err)
+					return
+				}
+				added++
+			}
+		}
+		sig, err := col.ThresholdSignature()
+		if err != nil || !bytes.Equal(sig, first) {
+			w.viol("C07", "keys.threshold", "participant.thresholdsignature:"+protoName[w.proto], "the stateful object built from the DKG output returns err=%v / a signature different from the stateless reconstruction", err)
+			return
+		}
+		w.probe("threshold_signature_stateful_checked")
+	}
 }
 
 // checkFairness: property C08.
